@@ -14,7 +14,8 @@ PROP = {
         "Wm.Route.ctx_in_handler", "Wm.Route.ctx_on_produced",
         # the defect repaired by fix 5846d09, kept as a witness over the Old model (WmModel/RouteOld.lean)
         "Wm.Route.Old.stale_context_shows_through", "Wm.Route.Old.agrees_on_nonempty",
-        "Wm.Route.handleOne_fn", "Wm.Route.publishes_only_own", "Wm.Route.published_iff",
+        "Wm.Route.handleOne_fn", "Wm.Route.publishes_only_own", "Wm.Route.done_context_irrelevant",
+        "Wm.Route.returned_outputs_published", "Wm.Route.published_iff",
         "Wm.Route.nopub_middleware_outputs_nack", "Wm.Route.routes_to_own_fn", "Wm.Route.route_order_irrelevant",
         "Wm.Route.only_own_function", "Wm.Route.subscriptions_bijective",
     ],
@@ -39,13 +40,16 @@ PROP = {
             "topic) in shuffled order, plus messages nobody listens to, about 1 in 12 messages arriving with an upstream handler's "
             "values already on its context; stale: 25 fixed cases - incoming context pre-loaded (through a real upstream Router) with "
             "one, several or all five values of another handler, at handlers with all fields set, all fields empty, "
-            "AddNoPublisherHandler, nil publisher, empty publish topic. Observation canonical per handler (Go map order in "
+            "AddNoPublisherHandler, nil publisher, empty publish topic; done_context: about 1 in 10 random messages and 6 fixed cases "
+            "(every output shape x {context already cancelled at delivery, cancelled by the function during the call, deadline the "
+            "function overruns} at publisher / middleware-output / no-publisher / nil-publisher handlers sharing the subscription, "
+            "with and without stale values) - the function returns normally, so outputs must be published as returned. Observation canonical per handler (Go map order in "
             "RunHandlers is random). Oracles: model observation equality and the property monitor. Non-trivial = >= 2 handlers and "
             ">= 1 Publish call or no-publisher Nack.",
     "trusted_base": [
         "Lean 4.33.0 kernel; axioms per theorem listed under theorem_axioms (subset of propext, Classical.choice, Quot.sound)",
         "extractor harness/cmd/extract/c08.go (go/ast: the set statements of handler.addHandlerContext with their guards if any, the "
-        "key each of the five accessors reads, the values of the key constants; 23 structural facts: five unconditional WithValue sets,  AddHandler stores its parameters and computes the "
+        "key each of the five accessors reads, the values of the key constants; 25 structural facts: the exact control-flow skeletons of handleMessage and publishProducedMessages, five unconditional WithValue sets,  AddHandler stores its parameters and computes the "
         "type names from its own objects, RunHandlers subscribes h.subscriber on h.subscribeTopic and gives the channel to the same "
         "handler, handleMessage passes the returned slice untouched through addHandlerContext to one Publish(h.publishTopic, "
         "produced...) on h.publisher, guards for empty output / nil publisher, disabledPublisher) and the interpreter "
@@ -65,6 +69,11 @@ PROP = {
         "upstream Router first and the context its handler function sees is put on the incoming message.",
         "For a handler without publisher the publisher type name reported by the context (\"message.disabledPublisher\" / "
         "\"<nil>\") is compared with the model only; the monitor demands the other four values.",
+        "The router decides on the error the handler function returns, not on the state of the consumed message's context: a "
+        "function that returns (outputs, nil) while that context is cancelled or past its deadline has its outputs published and "
+        "the message acked (model field Delivery.done is ignored by handleOne; theorems done_context_irrelevant, "
+        "returned_outputs_published). The monitor demands the publication (the statement's clause); the Ack is compared with the "
+        "model only, since C08's statement speaks about settlement only for the no-publisher case.",
         "Message objects are not shared between two handlers at the same time (that would be a data race on SetContext).",
     ],
     "explanation": "routes_to_own_fn / only_own_function / route_order_irrelevant: for every configuration, script and map order a "
@@ -81,7 +90,7 @@ PROP = {
                   "obey the model's law on every run; model and an independent monitor are compared with the real Router on all "
                   "two-handler wirings and on random configurations of 1..6 handlers with interleaved streams.",
     "level_note": "Proved about the model, not about the Go code; the routing theorems are close to the model's definitions, the "
-                  "weight is on the correspondence (differential harness with pointer-identity recording publishers, 23 structural "
+                  "weight is on the correspondence (differential harness with pointer-identity recording publishers, 25 structural "
                   "facts, generated context code + 4 tie theorems, -race). The context clause is proved without a guard on the "
                   "incoming context (fix 5846d09); the pre-fix behaviour is kept as an Old witness model.",
     "technique": "Lean 4 theorems over a hand-written executable model + generated deep-embedded context code with tie theorems + "
